@@ -13,7 +13,7 @@ C_FUNCS = [("kastore.c", "kastore_read_header"), ("kastore.c", "kastore_read_des
            ("kastore.c", "type_size")] + [("tables.c", "tsk_%s_table_equals" % t) for t in (
                "node", "edge", "site", "mutation", "migration", "individual", "population", "provenance")] + [
            ("tables.c", "tsk_reference_sequence_equals"), ("tables.c", "tsk_table_collection_equals")]
-BOUNDED = [{"name": "roundtrips", "module": "standins.c05_roundtrip", "timeout": 900}]
+BOUNDED = [{"name": "roundtrips", "module": "standins.c05_roundtrip", "timeout": 900, "asan": "thorough"}]
 UNVERIFIED = ["kastore write path (pack_items, write_descriptors)", "tables.c column dump/load (bounded only)", "edge tables created with TSK_TABLE_NO_METADATA in *_equals",
               "python dict/pickle paths (bounded only)"]
 ASSUMPTIONS = ["see C10",
